@@ -168,6 +168,12 @@ class PoolSum(sp.Expr):
     def free_symbols(self) -> set[sp.Basic]:
         return super().free_symbols - {s for s, _ in self.indices}
 
+    def _eval_subs(self, old, new, **hints):
+        # summation indices are bound variables and cannot be substituted
+        if any(old == idx for idx, _ in self.indices):
+            return self
+        return None
+
     @override
     def doit(self, deep: bool = True) -> sp.Expr:  # type: ignore[misc]
         expr = self.evaluate()
